@@ -604,6 +604,212 @@ def session_facts(tree: ast.Module | None) -> dict:
 	return f
 
 
+# ------------------------------------------------------------------------------------------------
+# results.py / util/json.py: the conversion rules of the two JSON exporters (C11)
+# ------------------------------------------------------------------------------------------------
+def _jexpr(node, obj: str):
+	"""an expression of a conversion rule, relative to the object `obj`:  obj.a.b  |  None if obj.a is None else <expr>  |
+	list(obj.a.ancestors(incself=True))  (the lineage, materialised by the harness under the pseudo-attribute of that name)"""
+	def path(n):
+		parts = []
+		while isinstance(n, ast.Attribute):
+			parts.append(n.attr)
+			n = n.value
+		if isinstance(n, ast.Name) and n.id == obj:
+			return parts[::-1]
+		raise Untranslatable(f'expression {ast.unparse(node)!r} is not an attribute path of {obj}')
+	if isinstance(node, ast.Name) and node.id == obj:
+		return ('attr', [])
+	if isinstance(node, ast.Attribute):
+		return ('attr', path(node))
+	if isinstance(node, ast.IfExp):
+		t = node.test
+		if (isinstance(t, ast.Compare) and len(t.ops) == 1 and isinstance(t.ops[0], ast.Is) and isinstance(t.comparators[0], ast.Constant)
+				and t.comparators[0].value is None and isinstance(node.body, ast.Constant) and node.body.value is None):
+			return ('noneIfNone', path(t.left), _jexpr(node.orelse, obj))
+	if (isinstance(node, ast.Call) and isinstance(node.func, ast.Name) and node.func.id == 'list' and len(node.args) == 1 and not node.keywords):
+		c = node.args[0]
+		if (isinstance(c, ast.Call) and isinstance(c.func, ast.Attribute) and c.func.attr == 'ancestors' and not c.args
+				and [(k.arg, ast.unparse(k.value)) for k in c.keywords] == [('incself', 'True')]):
+			return ('attr', path(c.func.value) + ['ancestors(incself=True)'])
+	raise Untranslatable(f'expression {ast.unparse(node)!r} of a conversion rule')
+
+
+def _str_list(node):
+	if isinstance(node, (ast.List, ast.Tuple)) and all(isinstance(e, ast.Constant) and isinstance(e.value, str) for e in node.elts):
+		return [e.value for e in node.elts]
+	raise Untranslatable(f'{ast.unparse(node)!r} is not a literal list of names')
+
+
+def _rule(fn: ast.FunctionDef):
+	"""one `@to_json.register(X)` method -> ('fields', [(key, expr)]) | ('asdictExcept', [keys])"""
+	if len(fn.args.args) != 2 or fn.args.vararg or fn.args.kwarg or fn.args.kwonlyargs:
+		raise Untranslatable(f'{fn.name}: parameters')
+	obj = fn.args.args[1].arg
+	body = _body(fn)
+	if not body or not isinstance(body[-1], ast.Return) or body[-1].value is None:
+		raise Untranslatable(f'{fn.name}: does not end in a return of a value')
+	ret = body[-1].value
+
+	def todict(call):
+		if (isinstance(call, ast.Call) and isinstance(call.func, ast.Name) and call.func.id == '_todict' and len(call.args) == 2 and not call.keywords
+				and isinstance(call.args[0], ast.Name) and call.args[0].id == obj):
+			return [(n, ('attr', [n])) for n in _str_list(call.args[1])]
+		return None
+	if len(body) == 1:
+		if isinstance(ret, ast.Call) and isinstance(ret.func, ast.Name) and ret.func.id == 'dict' and not ret.args and all(k.arg for k in ret.keywords):
+			return ('fields', [(k.arg, _jexpr(k.value, obj)) for k in ret.keywords])
+		td = todict(ret)
+		if td is not None:
+			return ('fields', td)
+		raise Untranslatable(f'{fn.name}: returns {ast.unparse(ret)!r}')
+	# data = <start>; (data[k] = e | del data[k])*; return data
+	first = body[0]
+	if not (isinstance(first, ast.Assign) and len(first.targets) == 1 and isinstance(first.targets[0], ast.Name)
+			and isinstance(ret, ast.Name) and ret.id == first.targets[0].id):
+		raise Untranslatable(f'{fn.name}: shape of the body')
+	var = first.targets[0].id
+	td = todict(first.value)
+	if td is not None:
+		kvs = list(td)
+		for st in body[1:-1]:
+			if (isinstance(st, ast.Assign) and len(st.targets) == 1 and isinstance(st.targets[0], ast.Subscript) and isinstance(st.targets[0].value, ast.Name)
+					and st.targets[0].value.id == var and isinstance(st.targets[0].slice, ast.Constant) and isinstance(st.targets[0].slice.value, str)):
+				k = st.targets[0].slice.value
+				kvs = [kv for kv in kvs if kv[0] != k] + [(k, _jexpr(st.value, obj))]
+			else:
+				raise Untranslatable(f'{fn.name}: statement {ast.unparse(st)!r}')
+		return ('fields', kvs)
+	if ast.unparse(first.value) == f'asdict({obj}, recurse=False)':
+		drop = []
+		for st in body[1:-1]:
+			if (isinstance(st, ast.Delete) and len(st.targets) == 1 and isinstance(st.targets[0], ast.Subscript) and isinstance(st.targets[0].value, ast.Name)
+					and st.targets[0].value.id == var and isinstance(st.targets[0].slice, ast.Constant) and isinstance(st.targets[0].slice.value, str)):
+				drop.append(st.targets[0].slice.value)
+			else:
+				raise Untranslatable(f'{fn.name}: statement {ast.unparse(st)!r}')
+		return ('asdictExcept', drop)
+	raise Untranslatable(f'{fn.name}: starts from {ast.unparse(first.value)!r}')
+
+
+def _exporter_rules(cls: ast.ClassDef):
+	"""the rules a JSON exporter class registers, in source order: [(class name, rule)]; the class must consist of a doc-string,
+	`to_json = singledispatchmethod(BaseJSONResultsExporter.to_json)` and `@to_json.register(X)` methods only"""
+	rules, saw_dispatch = [], False
+	for st in cls.body:
+		if isinstance(st, ast.Expr) and isinstance(st.value, ast.Constant) and isinstance(st.value.value, str):
+			continue
+		if isinstance(st, ast.Assign) and ast.unparse(st) == 'to_json = singledispatchmethod(BaseJSONResultsExporter.to_json)':
+			saw_dispatch = True
+			continue
+		if isinstance(st, ast.FunctionDef) and len(st.decorator_list) == 1:
+			d = st.decorator_list[0]
+			if (isinstance(d, ast.Call) and ast.unparse(d.func) == 'to_json.register' and len(d.args) == 1 and isinstance(d.args[0], ast.Name) and not d.keywords):
+				if d.args[0].id in [r[0] for r in rules]:
+					raise Untranslatable(f'{cls.name}: two rules for {d.args[0].id}')
+				rules.append((d.args[0].id, _rule(st)))
+				continue
+		raise Untranslatable(f'{cls.name}: member {ast.unparse(st).splitlines()[0]!r}')
+	if not saw_dispatch:
+		raise Untranslatable(f'{cls.name}: to_json is not the singledispatchmethod over BaseJSONResultsExporter.to_json')
+	return rules
+
+
+def _lean_jexpr(e) -> str:
+	if e[0] == 'attr':
+		return '(.attr [' + ', '.join(lean_str(a) + '.toList' for a in e[1]) + '])'
+	return '(.noneIfNone [' + ', '.join(lean_str(a) + '.toList' for a in e[1]) + '] ' + _lean_jexpr(e[2]) + ')'
+
+
+def _lean_rules(rules) -> str:
+	out = []
+	for cls, r in rules:
+		if r[0] == 'fields':
+			body = '.fields [' + ', '.join(f'({lean_str(k)}.toList, {_lean_jexpr(e)})' for k, e in r[1]) + ']'
+		else:
+			body = '.asdictExcept [' + ', '.join(lean_str(k) + '.toList' for k in r[1]) + ']'
+		out.append(f'({lean_str(cls)}.toList, {body})')
+	return '[' + ',\n   '.join(out) + ']'
+
+
+def json_facts(repo: Path, out_dir: Path, report: dict) -> dict:
+	"""Gen/PyJson.lean: the conversion rules of JSONResultsExporter and ResultsArchiveWriter as data (re-read from the current source),
+	and — as structural facts — what surrounds them: the base class's to_json / export, `_todict`, the converter and its hooks"""
+	b = lambda x: 'true' if x else 'false'
+	bad = []
+	jr = ar = None
+	f = dict.fromkeys(['baseToJson', 'export', 'todict', 'converter', 'hooks', 'csvExport'], False)
+	try:
+		rtree = ast.parse((repo / 'src' / 'gambit' / 'results.py').read_text())
+		classes = {st.name: st for st in rtree.body if isinstance(st, ast.ClassDef)}
+		funcs = {st.name: st for st in rtree.body if isinstance(st, ast.FunctionDef)}
+		for name in ('JSONResultsExporter', 'ResultsArchiveWriter'):
+			try:
+				if name not in classes or [ast.unparse(x) for x in classes[name].bases] != ['BaseJSONResultsExporter']:
+					raise Untranslatable(f'{name}: not a direct subclass of BaseJSONResultsExporter')
+				rules = _exporter_rules(classes[name])
+				if name == 'JSONResultsExporter':
+					jr = rules
+				else:
+					ar = rules
+			except Untranslatable as e:
+				bad.append(f'results.py:{e}')
+		base = classes.get('BaseJSONResultsExporter')
+		if base is not None:
+			meths = {m.name: m for m in base.body if isinstance(m, ast.FunctionDef)}
+			f['baseToJson'] = ('to_json' in meths and [ast.unparse(x) for x in _body(meths['to_json'])] == ['return gjson.to_json(obj)']
+			                   and sorted(meths) == ['export', 'to_json'])
+			f['export'] = ('export' in meths and [ast.unparse(x) for x in _body(meths['export'])] ==
+			               ['opts = dict(indent=4, sort_keys=True) if self.pretty else dict()',
+			                "with maybe_open(file_or_path, 'w') as f:\n    json.dump(results, f, default=self.to_json, **opts)"])
+		f['todict'] = '_todict' in funcs and [ast.unparse(x) for x in _body(funcs['_todict'])] == ['return {a: getattr(obj, a) for a in attrs}']
+		imports = [ast.unparse(st) for st in rtree.body if isinstance(st, (ast.Import, ast.ImportFrom))]
+		f['todict'] = f['todict'] and 'import gambit.util.json as gjson' in imports and 'import json' in imports and 'from attr import attrs, attrib, asdict' in imports
+		csvc = classes.get('CSVResultsExporter')
+		if csvc is not None:
+			exp = next((m for m in csvc.body if isinstance(m, ast.FunctionDef) and m.name == 'export'), None)
+			f['csvExport'] = exp is not None and [ast.unparse(x) for x in _body(exp)] == [
+				"with maybe_open(file_or_path, 'w') as f:\n    writer = csv.writer(f, **self.format_opts)\n    writer.writerow(self.get_header())\n"
+				"    for item in results.items:\n        writer.writerow(self.get_row(item))"]
+		jtree = ast.parse((repo / 'src' / 'gambit' / 'util' / 'json.py').read_text())
+		top = [ast.unparse(st) for st in jtree.body]
+		jfun = {st.name: st for st in jtree.body if isinstance(st, ast.FunctionDef)}
+		f['converter'] = ('converter = cattr.Converter()' in top and 'to_json' in jfun
+		                  and [ast.unparse(x) for x in _body(jfun['to_json'])] == ['return converter.unstructure(obj)']
+		                  and sum(1 for t in top if t.startswith('converter =') or t.startswith('to_json =')) == 1)
+		want = ['register_hooks(datetime, datetime.isoformat, datetime.fromisoformat)', 'register_hooks(date, date.isoformat, date.fromisoformat)',
+		        'register_hooks(Path, str, Path)', 'converter.register_unstructure_hook(np.integer, int)', 'converter.register_unstructure_hook(np.floating, float)']
+		regs = [ast.unparse(st) for st in jtree.body if isinstance(st, ast.Expr) and ('register_unstructure_hook(' in ast.unparse(st) or ast.unparse(st).startswith('register_hooks('))]
+		f['hooks'] = (regs == want and 'register_hooks' in jfun and [ast.unparse(x) for x in _body(jfun['register_hooks'])][0] == 'converter.register_unstructure_hook(cls, unstructure)')
+	except (SyntaxError, OSError, StopIteration) as e:
+		bad.append(f'results.py / util/json.py: {e!r}')
+	DOC = {'baseToJson': '`BaseJSONResultsExporter.to_json(obj)` is `gjson.to_json(obj)`, and the class defines nothing but `to_json` and `export`',
+	       'export': '`export` is `json.dump(results, f, default=self.to_json, **opts)` into the opened file, `opts` being `indent` / `sort_keys` (pretty) or nothing',
+	       'todict': '`_todict(obj, attrs)` is `{a: getattr(obj, a) for a in attrs}`; `json`, `gjson`, `asdict` are the modules / function of these names',
+	       'converter': '`gambit.util.json.to_json(obj)` is `converter.unstructure(obj)` of the module\'s one `cattr.Converter()`',
+	       'hooks': 'the unstructure hooks registered on it are exactly: datetime / date -> isoformat, Path -> str, np.integer -> int, np.floating -> float',
+	       'csvExport': '`CSVResultsExporter.export` writes the header row, then `get_row(item)` for every item of `results.items` in order'}
+	text = ('/-\nGENERATED by harness/pytrace.py from src/gambit/results.py and src/gambit/util/json.py — do not edit.\n'
+	        'Regenerated at the start of every check; `GambitV.Tie.PyJson` proves the rules equal to the model\'s exporters.\n-/\n'
+	        'import GambitV.Model.Json\nnamespace GambitV.Gen\nopen GambitV.Json\n\n'
+	        '/-- the conversion rules `JSONResultsExporter` registers (`@to_json.register(X)`), in source order -/\n'
+	        f'def pyJsonExporter : Exporter :=\n  {_lean_rules(jr or [])}\n'
+	        f'def pyJsonExporter.untranslatable : Bool := {b(jr is None)}\n\n'
+	        '/-- the conversion rules `ResultsArchiveWriter` registers -/\n'
+	        f'def pyArchiveExporter : Exporter :=\n  {_lean_rules(ar or [])}\n'
+	        f'def pyArchiveExporter.untranslatable : Bool := {b(ar is None)}\n\n'
+	        + ''.join(f'/-- {DOC[k]} -/\ndef pyJson_{k} : Bool := {b(v)}\n' for k, v in f.items()) + '\nend GambitV.Gen\n')
+	p = out_dir / 'PyJson.lean'
+	if not p.exists() or p.read_text() != text:
+		p.write_text(text)
+	report['modules']['PyJson'] = hashlib.sha1(text.encode()).hexdigest()[:12]
+	report['functions'].append('results.py JSONResultsExporter / ResultsArchiveWriter (conversion rules as data), BaseJSONResultsExporter, util/json.py converter (structural facts)')
+	for u in bad:
+		report['untranslatable'].append(u)
+		report.setdefault('untranslatable_by_module', {}).setdefault('PyJson', []).append(u)
+	return f
+
+
 HEADER = '''/-
 GENERATED by harness/pytrace.py from src/gambit/sigs/hdf5.py — do not edit.
 Regenerated at the start of every check; `GambitV.Tie.PyHdf5` proves the trace equal to the model's `writerTrace`.
@@ -658,6 +864,8 @@ def regenerate(repo: Path, out_dir: Path) -> dict:
 	if not p.exists() or p.read_text() != text:
 		p.write_text(text)
 	report['modules'] = {'PyHdf5': hashlib.sha1(text.encode()).hexdigest()[:12]}
+	if report['untranslatable']:
+		report['untranslatable_by_module'] = {'PyHdf5': list(report['untranslatable'])}
 	# --- src/gambit/db/sqla.py ---------------------------------------------------------------------------------------------
 	try:
 		stree = ast.parse((repo / 'src' / 'gambit' / 'db' / 'sqla.py').read_text())
@@ -827,8 +1035,7 @@ def regenerate(repo: Path, out_dir: Path) -> dict:
 	if cols is None:
 		report['untranslatable'].append('results.py:CSVResultsExporter.COLUMNS: not a literal list of (name, path) string pairs')
 		report.setdefault('untranslatable_by_module', {}).setdefault('PyCsvColumns', []).append(report['untranslatable'][-1])
-	if report['untranslatable']:
-		report['untranslatable_by_module'] = {'PyHdf5': list(report['untranslatable'])}
+	jf = json_facts(repo, out_dir, report)
 	return report
 
 
